@@ -184,3 +184,17 @@ M('C19', 'plane-inverted-keeps-d', P3F, "        Self::new(-self.normal, -self.d
 M('C19', 'plane-three-point-order', P3F, "UnitVec3::new_normalize((p2 - p1).cross(&(p3 - p1)))", "UnitVec3::new_normalize((p3 - p1).cross(&(p2 - p1)))", 'Plane3::from(p1,p2,p3)')
 M('C19', 'plane-project-sign', P3F, "        point - self.normal.into_inner() * self.signed_distance_to_point(point)", "        point + self.normal.into_inner() * self.signed_distance_to_point(point)", 'project_point')
 M('C19', 'neutral-basis-xy-helper-temp', I3F, "        let e2 = e0.cross(e1).try_normalize(1e-10).ok_or(\"Could not normalize e2\")?;\n        let e1 = e2.cross(&e0)", "        let raw = e0.cross(e1);\n        let e2 = raw.try_normalize(1e-10).ok_or(\"Could not normalize e2\")?;\n        let e1 = e2.cross(&e0)", kind='neutral')
+
+# ---------------------------------------------------------------- C10
+AEF = 'src/airfoil/edges.rs'
+AHF = 'src/airfoil/helpers.rs'
+M('C10', 'open-edge-ignore-front', AEF, "        let end = if front {\n            stations.first()\n        } else {\n            stations.last()\n        };", "        let _ = front;\n        let end = stations.last();", 'OpenEdge::find_edge:front')
+M('C10', 'analyze-swapped-flags', 'src/airfoil.rs', ".find_edge(section, stations, true, core_tol)", ".find_edge(section, stations, false, core_tol)", 'front-flags')
+M('C10', 'analyze-leading-pushed-last', 'src/airfoil.rs', "            camber_points.insert(0, leading.point);", "            camber_points.push(leading.point);", 'leading-first')
+M('C10', 'oriented-last-wrong-end', AHF, "        if self.reversed {\n            self.circles.first()\n        } else {\n            self.circles.last()\n        }", "        if self.reversed {\n            self.circles.last()\n        } else {\n            self.circles.first()\n        }", 'OrientedCircles::last')
+M('C10', 'oriented-push-wrong-end', AHF, "        if self.reversed {\n            self.circles.insert(0, c);\n        } else {\n            self.circles.push(c);\n        }", "        if !self.reversed {\n            self.circles.insert(0, c);\n        } else {\n            self.circles.push(c);\n        }", 'OrientedCircles::push')
+M('C10', 'oriented-end-sp-indices', AHF, "                (self.circles[1].circle.center, self.circles[0].circle.center)", "                (self.circles[self.circles.len() - 2].circle.center, self.circles[0].circle.center)", 'OrientedCircles::end_sp')
+M('C10', 'oriented-walk-direction', AHF, "                if i == self.circles.len() - 1 {\n                    break;\n                }\n                i += 1;", "                if i == 0 {\n                    break;\n                }\n                i -= 1;", 'OrientedCircles::get_end_curve')
+M('C10', 'reverse-circles-order-only', AHF, "    stations.iter_mut().for_each(|i| i.reverse_in_place());\n", "", 'reverse_inscribed_circles')
+M('C10', 'inscribed-reversed-keeps-contacts', 'src/airfoil/inscribed_circle.rs', "            self.contact_neg,\n            self.contact_pos,\n            self.circle,", "            self.contact_pos,\n            self.contact_neg,\n            self.circle,", 'InscribedCircle::reversed')
+M('C10', 'full-curve-never-reversed', AHF, "        if self.reversed {\n            Ok(curve.reversed())\n        } else {\n            Ok(curve)\n        }", "        if !self.reversed {\n            Ok(curve.reversed())\n        } else {\n            Ok(curve)\n        }", 'get_full_curve')
